@@ -164,6 +164,8 @@ class SX:
         self.static_exit = static_exit       # callable(fn, loop) -> every exit test of the loop is loop-invariant
         self.pure_by_args = set(pure_by_args)    # pure externals whose result symbol is named by the argument values
         self.models = models or {}           # callee -> f(sx, st, fn, inst, args) -> value | None
+        self.table_loads = {}                # symbol -> (constant global, index form) for loads from constant tables
+        self.load_hook = None                # f(sx, st, fn, inst, pointer, value) called for loads from fmt_base
         self.prune = True                    # drop constraints that no live value depends on (set False to keep the
                                              # whole path condition, e.g. facts about bytes already consumed)
         self.alloca_size = {}
@@ -861,12 +863,21 @@ class SX:
                 if b is not None and 0 <= p.off.c < len(b):
                     v = b[p.off.c]
                     return Lin(v - 256 if v >= 128 else v)
+            if p.base[0] == 'g' and not p.off.is_const() and ty.get('k') == 'int' and ty.get('bits') == 8 and \
+                    self.global_bytes(p.base[1]) is not None:
+                # constant byte table indexed by a symbolic value: an opaque symbol that remembers table and index
+                v = Lin.sym(self.opq('tab', p.base[1], p.off.key()))
+                self.table_loads[next(iter(v.t))] = (p.base[1], p.off)
+                return v
             if p.base[0] == 'a' and p.off.is_const():
                 v = st.mem.get((p.base, p.off.c, ty.get('size')))
                 if v is not None:
                     return v
             if self.fmt_base is not None and p.base == self.fmt_base and ty.get('k') == 'int':
-                return Lin.sym(self.opq('byte', p.key()))
+                v = Lin.sym(self.opq('byte', p.key()))
+                if self.load_hook is not None:
+                    self.load_hook(self, st, fn, i, p, v)
+                return v
         return self.top(i, fn)
 
     def exec_select(self, fn, i, st):
@@ -1282,28 +1293,41 @@ class SX:
         dec = fn.insts[step.id]
         if dec.op != 'add' or dec.ops[0].key() != ('i', cnt.id) or dec.ops[1].k != 'ci' or dec.ops[1].ival != -1:
             return None
-        ptr = None
+        # every other header phi advances by a constant per iteration (a source pointer, a running count)
+        call = calls[0]
+        srcld = fn.inst_of(self.strip(fn, call.ops[1])) if call.ops[1].k == 'inst' else None
+        ptr = pinit = None
+        extras = []
         for i in H.insts:
-            if i.op == 'phi' and i.id != cnt.id:
-                if ptr is not None:
-                    return None
-                ptr = i
-        pinit = pgep = None
-        if ptr is not None:
-            for (bb, v) in ptr.incoming:
+            if i.op != 'phi' or i.id == cnt.id:
+                continue
+            k = kind = init_v = None
+            for (bb, v) in i.incoming:
                 if bb == latch.name:
                     g = fn.inst_of(v)
-                    if g is None or g.op != 'getelementptr' or g.ops[0].key() != ('i', ptr.id):
+                    if g is None or g.ops[0].key() != ('i', i.id):
                         return None
-                    st_ = g.d['gep']['steps']
-                    if len(st_) != 1 or st_[0]['k'] != 'index' or st_[0]['stride'] != 1 or st_[0]['v'].get('v') != 1:
+                    if g.op == 'getelementptr':
+                        st_ = g.d['gep']['steps']
+                        if len(st_) != 1 or st_[0]['k'] != 'index' or st_[0]['v'].get('k') != 'ci':
+                            return None
+                        k, kind = int(st_[0]['v'].get('v', 0)) * st_[0]['stride'], 'ptr'
+                    elif g.op == 'add' and g.ops[1].k == 'ci':
+                        k, kind = g.ops[1].ival, 'int'
+                    else:
                         return None
-                    pgep = g
                 else:
-                    pinit = v
-            if pgep is None:
+                    if init_v is not None:
+                        return None
+                    init_v = v
+            if k is None or init_v is None:
                 return None
-        call = calls[0]
+            if srcld is not None and srcld.op == 'load' and srcld.ops[0].key() == ('i', i.id):
+                if kind != 'ptr' or k != 1:
+                    return None
+                ptr, pinit = i, init_v
+            else:
+                extras.append((i, kind, k))
         if not fn.dominates_block(fn.bmap[stay], call.block):
             return None
         a = call.ops[1]
@@ -1315,7 +1339,7 @@ class SX:
             else:
                 return None
         return {'kind': 'countdown', 'cnt': cnt, 'dec': dec, 'init': init, 'ptr': ptr, 'pinit': pinit, 'call': call,
-                'src': src, 'guard': c.pred, 'exit': L['exits'][0][1]}
+                'src': src, 'guard': c.pred, 'exit': L['exits'][0][1], 'extras': extras}
 
     def classify_digits(self, fn, L):
         """do { *--p = f(u % b); u /= b; } while (u);   (also the pre-tested while (u) form)"""
@@ -1391,6 +1415,20 @@ class SX:
             return self.run_digits(fn, L, info, st, frm)
         if self.static_exit is not None and not info['emits'] and self.static_exit(fn, L):
             return self.run_static(fn, L, st, frm, rets)
+        if not info['emits']:
+            # does the first pass leave the loop on every path?  then that pass is the whole loop
+            trial = st.fork()
+            for ph, v in self.phi_init(fn, L['header'], trial, frm).items():
+                trial.env[('i', ph)] = v
+            self.recording += 1
+            try:
+                latches, exits = self.run_region(fn, L, [(trial, frm)], [])
+            except AnalysisBroken:
+                latches = [None]
+            finally:
+                self.recording -= 1
+            if not latches:
+                return self.run_static(fn, L, st, frm, rets)
         return self.run_generic(fn, L, info, st, frm, rets)
 
     def run_static(self, fn, L, st, frm, rets):
@@ -1432,6 +1470,8 @@ class SX:
                     s.env[('i', info['cnt'].id)] = c0
                     if info['ptr'] is not None:
                         s.env[('i', info['ptr'].id)] = inits.get(info['ptr'].id)
+                    for (ph, kind, k) in info.get('extras', ()):
+                        s.env[('i', ph.id)] = inits.get(ph.id)
                     out.append((s, H, info['exit']))
             return out
         name = self.loop_key(fn, L, name)
@@ -1479,6 +1519,14 @@ class SX:
                 self.oblige('emit-read', fn, self.loop_key(fn, {'header': H}, nm), ok, info['call'].where(),
                             None if ok else 'the emission loop reads %r bytes at offset %r of a %d-byte local buffer'
                             % (c0, p0.off, self.alloca_size[p0.base]))
+        for (ph, kind, k) in info.get('extras', ()):
+            v0 = inits.get(ph.id)
+            if isinstance(v0, Lin):
+                st.env[('i', ph.id)] = v0 + c0 * k
+            elif isinstance(v0, P):
+                st.env[('i', ph.id)] = P(v0.base, v0.off + c0 * k)
+            else:
+                st.env[('i', ph.id)] = self.top(ph, fn)
         self.emit(st, seg, c0)
         return [(st, H, info['exit'])]
 
@@ -1544,7 +1592,7 @@ class SX:
             self.run_region(fn, L, [(h, frm)], [])
             for (i, p, v, s) in self.store_log:
                 if i.id == info['store'].id:
-                    self.digit_probes.append((fn.name, v, s.env.get(('i', info['rem'].id)), s, vkey(d)))
+                    self.digit_probes.append((fn.name, v, s.env.get(('i', info['rem'].id)), s, vkey(d), d))
         finally:
             self.recording -= 1
             self.store_log = log
